@@ -54,6 +54,37 @@ check("C04",
       HOM + " Spectrum clause is evaluated for d<=5.", "TLA+ characteristic-polynomial oracle in trace validation (TLC)",
       "DESIGN.md §4 C04")
 
+ENG = ("Trusted: TLC/SANY 1.8.0, the Json community module, the harness-side tracer (wraps the public BlockSeries.eval "
+       "attribute and pop; cache hits are not observed), exactness of IEEE arithmetic on dyadic instances, reduction mod "
+       "p=46199 for the value comparison. Bounds: 2-3 blocks, d<=5, total order<=3, schedules of <=6 requests (+ full "
+       "re-read in C11), <=2 faults per session.")
+check("C10",
+      "MC_Engine: TLC explores every interleaving of a main-shaped recurrence (requests incl. slices, deletion at any "
+      "time) for the protocol invariants. Session.tla: TLC enumerates all schedules of length 2 over a 24-letter "
+      "alphabet and simulates longer ones (two computations sharing the input objects, slices, repeats, Hermitian and "
+      "non-Hermitian mode); each is replayed into the real block_diagonalize on numpy/sparse dyadic values and the "
+      "recorded event stream is validated by TLC against Engine.tla: every returned value must equal the undisturbed "
+      "computation (itself validated against LeastAction.tla), values handed out earlier are re-read (no mutation), "
+      "input objects are fingerprinted again.",
+      ENG, "TLA+ engine model (TLC exhaustive) + TLC-generated schedules replayed + trace validation", "DESIGN.md §4 C10")
+check("C11",
+      "MC_Engine with faults of every class at every point of every interleaving shows the protocol leaves no in-flight "
+      "marker and stays reusable. On the real code: for each TLC-generated schedule the clean run counts the K user "
+      "callback invocations (Hamiltonian eval, custom solve_sylvester); a fault is injected at EVERY invocation 1..K "
+      "for each of Exception/RuntimeError/KeyboardInterrupt, plus sampled double faults; the schedule continues and "
+      "everything is re-read; TLC validates each event stream against Engine.tla (Fault/Unwind/Raise actions, logged "
+      "count of in-flight markers in the real caches = 0, exception class preserved, later values = undisturbed run).",
+      ENG + " The element-multiplication callback is not injected (numpy matmul).",
+      "TLA+ engine model with Fault/Unwind (TLC exhaustive) + exhaustive crash-point injection + trace validation",
+      "DESIGN.md §4 C11")
+check("C12",
+      "Trace_Engine clauses on the real event stream: a Hamiltonian term (the user's eval callback of a lazily defined "
+      "BlockSeries with 1-3 parameters and terms at arbitrary orders) is evaluated during the definition only at order "
+      "zero, during a request of order n only at orders m<=n componentwise, and at most once; two-run relation: with "
+      "every term m not<= n altered (lazy and dict inputs) the returned value still equals the original's. Schedules "
+      "come from Session.tla; MC_Engine checks InvInputsOnce/InvCausal on all interleavings.",
+      ENG, "TLA+ engine model + trace validation with causality clauses (TLC)", "DESIGN.md §4 C12")
+
 ALL = [f"C{i:02d}" for i in range(1, 21)]
 
 
